@@ -3,9 +3,12 @@ package main
 import (
 	"fmt"
 	"os"
+	"os/exec"
 	"reflect"
+	"regexp"
 	"runtime"
 	"sort"
+	"strconv"
 	"strings"
 	"sync"
 	"time"
@@ -298,4 +301,34 @@ func sessionPhase(r *evid.Run) {
 	r.Count("states", res.Distinct)
 	r.Count("transitions", res.Generated)
 	fmt.Printf("model MC_Session/%s: %d distinct states, %d sessions ending in a call owned by %s replayed in fresh processes\n", cfg, res.Distinct, r.Get("sessions_replayed"), r.ID)
+}
+
+// proveSession: Session.tla holds for sessions of any length (TLAPS proof SessionProof.tla; the TLC runs bound the
+// length).  A failed proof is a defect of the specification, never a verdict about the code.
+func proveSession(r *evid.Run) {
+	dir, err := os.MkdirTemp("", "verif-tlaps-")
+	if err != nil {
+		r.Broken("mkdtemp: %v", err)
+		return
+	}
+	defer os.RemoveAll(dir)
+	for _, f := range []string{"Session.tla", "SessionProof.tla"} {
+		b, err := os.ReadFile(specDir + "/" + f)
+		if err != nil {
+			r.Broken("read %s: %v", f, err)
+			return
+		}
+		os.WriteFile(dir+"/"+f, b, 0o644)
+	}
+	cmd := exec.Command("timeout", "600", "tlapm", "--threads", fmt.Sprint(runtime.NumCPU()), "SessionProof.tla")
+	cmd.Dir = dir
+	out, err := cmd.CombinedOutput()
+	m := regexp.MustCompile(`All (\d+) obligations proved`).FindSubmatch(out)
+	if err != nil || m == nil {
+		r.Broken("tlapm SessionProof.tla: %v\n%s", err, clip(string(out), 2000))
+		return
+	}
+	n, _ := strconv.Atoi(string(m[1]))
+	r.Set("tlaps_obligations_proved (SessionProof.tla: sessions of any length)", n)
+	fmt.Printf("proof SessionProof.tla: %d obligations proved (sessions of any length leave no residue)\n", n)
 }
